@@ -43,7 +43,7 @@ func NewAux(fd *slip.FuncDoc) *Aux {
 		methods:    map[string]*slip.Method{},
 		docs:       fd,
 		reqCnt:     cnt,
-		defaultKey: string(dk[:len(dk)-2]),
+		defaultKey: strings.TrimSuffix(string(dk), "|"),
 	}
 }
 
